@@ -19,7 +19,7 @@ Flips(f) == { [f EXCEPT ![v] = ~f[v]] : v \in TruthVars }
 TruthSets == IF InputMode = "one" THEN {AllT} ELSE IF InputMode = "two" THEN {AllT, AllF} ELSE {AllT, AllF} \cup Flips(AllT) \cup Flips(AllF)
 ArrSet == IF InputMode \in {"one", "two"} THEN {1} ELSE 1..Len(ArrVals)
 
-MyParts == { pc \in PartIds : (pc[1] * 5 + pc[2]) % ShardN = ShardI }
+MyParts == { pc \in PartIds : (pc[1] * 6 + pc[2]) % ShardN = ShardI }
 MyProgs(dummy) == UNION { ProgramsPart(pc[1], pc[2]) : pc \in MyParts }
 Init == /\ prog \in MyProgs(0)
         /\ truth \in TruthSets
